@@ -1481,7 +1481,9 @@ func SelectStrategy(n *nfa.NFA, re *syntax.Regexp, literals *literal.Seq, config
 	isEndAnchored := re != nil && nfa.IsPatternEndAnchored(re)
 	hasStartAnchor := re != nil && nfa.IsPatternStartAnchored(re)
 
-	if re != nil && config.EnableDFA && isEndAnchored && !isStartAnchored && !hasStartAnchor {
+	// The reverse NFA also drops word boundaries and line anchors, so a pattern
+	// that has one (other than the trailing $) is not a candidate either.
+	if re != nil && config.EnableDFA && isEndAnchored && !isStartAnchored && !hasStartAnchor && !reverseDropsAssertion(re) {
 		// Perfect candidate for reverse search
 		// Example: "pattern.*suffix$" on large haystack
 		// Forward: O(n*m) tries, Reverse: O(m) one try
